@@ -46,6 +46,9 @@ def small_identities():
                 ids.append((name, (("in", p),), (), (), (("in.t", v),)))
         for ms in [(), ("a",), ("a", "b"), ("ab",), ("b", "a")]:
             ids.append((name, (), (("j", "c", ms),), (), ()))
+            # the same members carried by another sub-stream IP (two adapters fed by the same source): another task
+            ids.append((name, (), (("j", "c2", ms),), (), ()))
+            ids.append((name, (), (("j", "batches/b1", ms),), (), ()))
     return ids
 
 
